@@ -48,9 +48,9 @@ pub fn tree_case(em: &mut Emitter, mode: u8, d: &Dyn) {
         match l { Some(n) => { obs = obs.n(R_OK).n(n); } None => { obs = obs.n(R_PANIC); } }
         match &w { Some(v) => { obs = obs.n(R_OK).bytes(v); } None => { obs = obs.n(R_PANIC); } }
         let exp = ref_encode(d, mode);
-        let short = if w.is_some() { catch(|| { let mut sw = ShortWriter { out: Vec::new(), k: 1 + code_len % 4 }; d.write_encoded(modeof(mode), &mut sw).map(|_| sw.out).ok() }) } else { None };
+        let awkward = match (&w, &exp) { (Some(v), Some(_)) => awkward_targets(v, 1 + code_len % 4, &|t| { let mut t = t; d.write_encoded(modeof(mode), &mut t) }), _ => None };
         let orc = match (l, &w, &exp) {
-            (Some(_), Some(v), Some(_)) if short != Some(Some(v.clone())) => Oracle::Fail("octets-differ-on-a-short-writing-target".into()),
+            (Some(_), Some(_), Some(_)) if awkward.is_some() => Oracle::Fail(awkward.unwrap().into()),
             (Some(n), Some(v), Some(e)) => if n != v.len() { Oracle::Fail("announced-length-differs-from-written".into()) } else if v != e { Oracle::Fail("written-octets-differ-from-reference".into()) } else { Oracle::Pass },
             (None, None, None) => Oracle::Pass,
             (None, _, Some(_)) | (_, None, Some(_)) => Oracle::Fail("undocumented-panic".into()),
@@ -85,6 +85,18 @@ pub fn run(em: &mut Emitter, rng: &mut Rng, thorough: bool) {
             let leaf = Dyn::OctStr(0, 4, 0, t);
             for mode in [0u8, 2] { tree_case(em, mode, &leaf); tree_case(em, mode, &Dyn::Cons(0, 16, 0, Box::new(leaf.clone()))); }
         }
+    }
+    // integers at the powers of two where the octet count changes, both signs, every width, alone and nested
+    for ty in 0..10u8 { let bits = [7u32, 15, 31, 63, 127, 8, 16, 32, 64, 128][ty as usize];
+        for sh in (7..=bits).step_by(8).chain([bits, bits.saturating_sub(1)]) { for delta in [-1i32, 0, 1] { for neg in [false, true] {
+            if neg && ty >= 5 { continue }
+            let p = if sh >= 128 { u128::MAX } else { 1u128 << sh };
+            let mag = if delta < 0 { p.wrapping_sub(1) } else if delta > 0 { p.wrapping_add(1) } else { p };
+            let lim = if ty < 5 { if neg { 1u128 << bits } else { (1u128 << bits) - 1 } } else if bits == 128 { u128::MAX } else { (1u128 << bits) - 1 };
+            if mag > lim || (neg && mag == 0) { continue }
+            let leaf = Dyn::Int(0, 2, ty, neg, mag);
+            for mode in [0u8, 2] { tree_case(em, mode, &leaf); tree_case(em, mode, &Dyn::Cons(0, 16, 0, Box::new(leaf.clone()))); }
+        }}}
     }
     for k in 0..=13usize { for rep in 0..5u8 {
         let d = Dyn::Cons(0, 16, 1, Box::new(Dyn::Seq(rep, (0..k).map(|i| Dyn::Int(0, 2, 2, false, i as u128 * 50)).collect())));
